@@ -399,7 +399,7 @@ def _resume_inputs(ctx, tag, rng, with_failure=True):
 
 
 def _run_resume(ctx, tag, inputs, kills):
-    """kills: list of dicts (kill_after / kill_open / kill_write) applied in order, then a complete run"""
+    """kills: list of dicts (kill_after / kill_open / kill_created) applied in order, then a complete run"""
     srv = _server(ctx)
     outdir = str(ctx.scratch / f"resume_out_{tag}")
     logs = []
@@ -441,6 +441,9 @@ def _resume_cases(ctx, budget):
         opens = list(range(n_open))
         for k in opens:
             runs.append(("file", k, [dict(kill_open=k)]))
+        # (auditor) …and right AFTER every record / md5 / not-completed file creation (file exists, still empty)
+        for k in range(ref.get("created", 0)):
+            runs.append(("created", k, [dict(kill_created=k)]))
         if len(order) >= 3:
             runs.append(("record2", 1, [dict(kill_after=1), dict(kill_after=1)]))
         for mode, k, kills in runs:
@@ -453,7 +456,7 @@ def _resume_cases(ctx, budget):
 def _judge_resume(case):
     ref, res = _store_view(case["ref"]["store"]), _store_view(case["res"]["store"])
     fails = []
-    b = "record-boundary" if case["mode"].startswith("record") else "file-boundary"
+    b = "record-boundary" if case["mode"].startswith("record") else ("file-created" if case["mode"] == "created" else "file-boundary")
     if case["res"].get("exc"):
         fails.append((f"resume:{b}:rerun-raises", "the re-run of the interrupted apply_to raised", None, case["res"]["exc"]))
         return fails
@@ -588,6 +591,8 @@ def match_finding(f, k):
         return False
     if "present" in r and inp.get("present") != r["present"]:
         return False
+    if r.get("resume_modes") and (inp.get("kind") != "resume" or inp.get("mode") not in r["resume_modes"]):
+        return False
     return True
 
 
@@ -619,10 +624,11 @@ def check_witness(ctx, w):
     out = new_outcome()
     if w.get("kind") == "resume":
         rng = ctx.subrng("witness-resume")
-        inputs, short = _resume_inputs(ctx, "wit", rng)
+        inputs, short = _resume_inputs(ctx, "wit", rng, with_failure=w.get("with_failure", True))
         ref, _ = _run_resume(ctx, "wit_ref", inputs, [])
         res, logs = _run_resume(ctx, "wit_run", inputs, [w["kill"]])
-        case = dict(inputs=inputs, short=short, mode="file" if "kill_open" in w["kill"] else "record", k=list(w["kill"].values())[0], ref=ref, res=res, logs=logs)
+        mode = "file" if "kill_open" in w["kill"] else ("created" if "kill_created" in w["kill"] else "record")
+        case = dict(inputs=inputs, short=short, mode=mode, k=list(w["kill"].values())[0], ref=ref, res=res, logs=logs)
         for sig, what, exp, got in _judge_resume(case):
             if sig == w.get("sig", sig):
                 add_failure(out, "spec", what, dict(kind="resume", mode=case["mode"], k=case["k"]), exp, got, sig=sig)
